@@ -22,6 +22,13 @@ func runC02(c *CaseCtx) {
 	r := c.Rng
 	cfg := randCfg(r, []int{2}, 150, 600)
 	nKeys := []int{6, 12, 25, 40}[r.Intn(4)]
+	manyTxPerSegment := c.Case%5 == 4
+	if manyTxPerSegment {
+		// segments that hold a dozen or more single-record transactions (the per-segment transaction-id index grows
+		// beyond one node) before a large transaction rotates several times in one Commit
+		cfg.Seg = int64(1200 + r.Intn(1200))
+		nKeys = 25
+	}
 	u := defaultUniverse(r, 1, nKeys, false)
 	run := NewRunner(c, cfg, u, "sparse-kv")
 	c.Log("cfg %s buckets=%v nkeys=%d", cfg, u.Buckets, nKeys)
@@ -31,6 +38,10 @@ func runC02(c *CaseCtx) {
 	defer run.Close()
 	g := &Gen{R: r, U: u, Cfg: cfg, KV: true, TTL: true, MaxOps: 4}
 	ntx := 15 + r.Intn(tier(c.Tier, 45, 100))
+	if manyTxPerSegment {
+		g.MaxOps = 1
+		ntx += 30
+	}
 	tomb, expired := 0, 0
 	reads := func(label string) {
 		g.M = run.M
@@ -51,6 +62,11 @@ func runC02(c *CaseCtx) {
 	for i := 0; i < ntx && !run.Dead && !c.Violated(); i++ {
 		g.M = run.M
 		t := g.WriteTx(true)
+		if r.Intn(12) == 0 || manyTxPerSegment && i > 12 && i%16 == 0 {
+			// a transaction larger than one or two segments (several rotations inside one Commit)
+			t = g.BulkKVTx(2 + r.Intn(2))
+			c.Stat("transactions_larger_than_a_segment", 1)
+		}
 		out := run.Tx(t, false)
 		if out.Committed {
 			for _, o := range t.Ops {
